@@ -46,6 +46,9 @@ type observation struct {
 	FaultLog, FaultLogRacy, FaultDumps string
 	Faults                             []faultReply
 	OriginPort, UpstreamPort           string // this run's fault fronts
+	// with a PAC script: the scripted proxy the script does not answer by default, the server the script
+	// is fetched from, the value of --pac (a data: URI spells out this run's ports)
+	AuxPort, PACPort, PACRaw string
 	Stderr                             string
 	Configz                            reply
 	API401                             reply
@@ -154,6 +157,32 @@ func runAttempt(ctx *core.Ctx, c *Case, k int, g *rig, dir string) (o *observati
 		defer upFront.close()
 		ep.Upstream = upFront.addr
 	}
+	auxPort, pacPort := "", ""
+	if c.PAC != nil {
+		// the script's proxies: the HTTP(S) front above and a SOCKS5 front; the faults go to the one the
+		// script answers by default
+		s5, err := newSocksFront("upstream", g.noteUpstream, g.deadAddr)
+		if err != nil {
+			core.Fatalf("C19: no loopback listener: %v", err)
+		}
+		defer s5.close()
+		ep.HTTPProxy, ep.Socks5 = upFront.addr, s5.addr
+		_, auxPort = hostPort(s5.addr)
+		if c.PAC.Main == "SOCKS5" {
+			_, auxPort = hostPort(upFront.addr)
+			upFront, ep.Upstream = s5, s5.addr
+		}
+		if c.PAC.Form == "http" {
+			ps, err := newPACServer()
+			if err != nil {
+				core.Fatalf("C19: no loopback listener: %v", err)
+			}
+			defer ps.close()
+			ep.PACServer = ps.addr
+			_, pacPort = hostPort(ps.addr)
+			ps.set(c.PAC.script(ep))
+		}
+	}
 	p = assemble(c, k, ep, dir, paddr, aaddr)
 	for name, content := range p.Files {
 		if err := os.WriteFile(filepath.Join(dir, name), content, 0o600); err != nil {
@@ -161,7 +190,7 @@ func runAttempt(ctx *core.Ctx, c *Case, k int, g *rig, dir string) (o *observati
 		}
 	}
 	os.Remove(filepath.Join(dir, "forwarder.log")) // left over from an attempt that lost its port
-	o = &observation{Args: p.Args, Dir: dir}
+	o = &observation{Args: p.Args, Dir: dir, AuxPort: auxPort, PACPort: pacPort, PACRaw: p.PACRaw}
 	_, o.OriginPort = hostPort(ep.Origin)
 	_, o.UpstreamPort = hostPort(ep.Upstream)
 	var stdout, stderr syncBuf
@@ -171,6 +200,9 @@ func runAttempt(ctx *core.Ctx, c *Case, k int, g *rig, dir string) (o *observati
 	cmd.Env = p.Env
 	cmd.Dir = dir
 	cmd.Stdout, cmd.Stderr = &stdout, &stderr
+	if p.Stdin != "" {
+		cmd.Stdin = strings.NewReader(p.Stdin)
+	}
 	if err := cmd.Start(); err != nil {
 		core.Fatalf("C19: cannot start the binary: %v", err)
 	}
@@ -295,6 +327,7 @@ func runAttempt(ctx *core.Ctx, c *Case, k int, g *rig, dir string) (o *observati
 		fr.requestKinds = []string{"get", "mitm-get"}
 	}
 	fr.afterHead()
+	fr.pac()
 	s3 := quiesce(40 * time.Millisecond)
 	fr.racy()
 	s4 := quiesce(40 * time.Millisecond)
